@@ -11,7 +11,7 @@ d = '/verif/seeded/' + id_
 txt = open(d + '/meta.txt').read().strip().split('\n')
 needs = next((l for l in txt if l.lower().startswith('trigger')), txt[1] if len(txt) > 1 else txt[0])
 json.dump({"id": id_, "breaks": breaks.split(),
-           "origin": "sub-agent seed5-%s (%s round, independent of /verif; told the property text and the locations already used)" % (id_[:3], rnd),
+           "origin": "sub-agent seed-%s-%s (%s round, independent of /verif; told the property text and the locations already used)" % (rnd, id_[:3], rnd),
            "needs": needs[:400], "confirmed_by_me": json.load(open(d + '/confirm.json')),
            "what_i_ran": "tools/confirm_seed.sh %s %s : demo on the clean worktree, demo with patch.diff applied, full pytest suite with the patch applied compared with BASELINE.json stable_pass" % (wt, id_),
            "caught_by": caught}, open(d + '/meta.json', 'w'), indent=1)
